@@ -212,7 +212,7 @@ func propC13(c *Ctx) int {
 	}, map[string]interface{}{"bounds": "n<=13 bytes after the directive start; all byte values"})
 }
 
-const NumC12Prefixes = 62 // len(vC12Prefixes) in harness/scanner/zz_verif_c12.go
+const NumC12Prefixes = 70 // len(vC12Prefixes) in harness/scanner/zz_verif_c12.go
 
 func propC12(c *Ctx) int {
 	thorough := c.Tier == "thorough"
@@ -266,8 +266,20 @@ func propC12(c *Ctx) int {
 		j.Name, j.Fn, j.Params, j.MustReach = fmt.Sprintf("exact description text k=%d", k), "HScanExactDescription", map[string]int64{"k": k}, []string{"description-exact"}
 		c.RunJob(j)
 	}
+	kc := int64(8)
+	if thorough {
+		kc = 14
+	}
+	for form := int64(0); form <= 1; form++ {
+		for site := int64(0); site <= 2; site++ {
+			j := base
+			j.Name, j.Fn, j.Params, j.MustReach = fmt.Sprintf("comment content form=%d site=%d k=%d", form, site, kc), "HScanComment", map[string]int64{"k": kc, "site": site, "form": form}, []string{"comment-exact"}
+			c.RunJob(j)
+		}
+	}
 	return c.Finish("model_checking", []string{
-		"exactness of bodies: 6 templates (TYPE/ENUM/regex/Body/Headers/Request bodies) followed by 2/4 symbolic trivia bytes (blanks, line ends, # comments): body lexeme = rendered body; Description free text of 1..2/4 arbitrary bytes ended by the next directive: Text lexeme = bytes between the keyword line and the next keyword",
+		fmt.Sprintf("comments (HScanComment): a line comment / block comment with %d arbitrary content bytes (block: no ### inside, not ending in #) as trailing comment, comment line or last line of the file, followed by further directives and a block comment: the lexeme stream is exactly that of the directives (a comment yields nothing and hides nothing)", kc),
+		"exactness of bodies (a # comment after a jsight / enum body is a comment of the schema language: there the body lexeme may extend into it, as jsight-schema-core's Len() decides): 6 templates (TYPE/ENUM/regex/Body/Headers/Request bodies) followed by 2/4 symbolic trivia bytes (blanks, line ends, # comments): body lexeme = rendered body; Description free text of 1..2/4 arbitrary bytes ended by the next directive: Text lexeme = bytes between the keyword line and the next keyword",
 		fmt.Sprintf("well-formedness: every file of <= %d arbitrary bytes, and %d arbitrary bytes after each of %d state-witness prefixes; exactness: directive lines KW (P1)? (P2)? (annotation)? line-end for 14 keywords with symbolic parameter/annotation bytes (fields <= 3/4 bytes), bare and quoted, // and /* */, LF/CRLF/CR/EOF", maxN, k, NumC12Prefixes-1),
 		"lexeme grammar automaton and expected extents are computed in the harness (harness/scanner/zz_verif_c12.go, zz_verif_c12x.go)",
 		"schema/enum body extents are decided by jsight-schema-core (executed from its SSA); their content is outside the claim",
@@ -409,6 +421,17 @@ func propC08(c *Ctx) int {
 		j.Stubs = nil
 		c.RunJob(j)
 	}
+	kcm := int64(4)
+	if thorough {
+		kcm = 8
+	}
+	for doc := int64(0); doc < 5; doc++ {
+		for form := int64(0); form <= 1; form++ {
+			j := base
+			j.Name, j.Fn, j.Params = fmt.Sprintf("comment content doc#%d form=%d k=%d", doc, form, kcm), "HLayoutComment", map[string]int64{"doc": doc, "form": form, "k": kcm}
+			c.RunJob(j)
+		}
+	}
 	{
 		j := base
 		j.Name, j.Fn, j.Params = "layout before a body", "HLayoutBody", nil
@@ -417,6 +440,7 @@ func propC08(c *Ctx) int {
 		c.RunJob(j)
 	}
 	return c.Finish("model_checking", []string{
+		fmt.Sprintf("comment content (HLayoutComment): a '#' line comment / '### ... ###' block comment with %d arbitrary content bytes (any byte but NUL; line comment without line ends; block without ### inside) at a symbolic choice among all frozen trivia sites of each skeleton (outside existing comments): same verdict, same deep digest", kcm),
 		"between a keyword line and its body (HLayoutBody): 11 body-carrying directives (TYPE, Query, Headers, Path, Request, response, Params, Result, Body x2, ENUM) x placement (root / pasted MACRO) x 6 rewrites (explicit ( ) around the body; '#' line comment; one-line ### block; multi-line ### block with a blank line; blank + whitespace-only lines; ( ) plus block comment), all symbolic choices; for TYPE and Body a comment before the body is a schema comment (part of the body text, not of the schema) and is discounted from the digest",
 		"relational: 5 skeleton projects (3 accepted incl. MACRO/PASTE/INCLUDE/regex/enum/descriptions/explicit contexts; 2 rule-rejected) built twice, skeleton vs rewrite; equal catalog digest (every entity, order, names, annotations, descriptions, schema text without blanks) or same error class with the error index moved by the inserted length",
 		fmt.Sprintf("rewrites: LF->CRLF, LF->CR, uniform indentation by 1..2(3) symbolic blanks, a symbolic trailing blank on every line; %d symbolic trivia bytes (blank line / '#' comment line / trailing blanks / trailing comment) at every %s legal site (sites = positions outside bodies, description texts and annotations, found by scanning the skeleton)", k, map[bool]string{true: "", false: "3rd (seed-rotated)"}[thorough]),
